@@ -187,6 +187,11 @@ type LinkCfg struct {
 	LatMaxUs  int     `json:"lat_max_us"`
 	ShortRead bool    `json:"short_read,omitempty"`
 	Faults    []Fault `json:"faults,omitempty"`
+	// Window bounds the bytes the writer may have outstanding (accepted but
+	// not yet read by the peer): a Write that would exceed it blocks until the
+	// peer reads, the write deadline passes or the connection is closed, like a
+	// TCP sender facing a full / zero window. 0 = unbounded, -1 = zero window.
+	Window int `json:"window,omitempty"`
 }
 
 var ErrReset = errors.New("simnet: connection reset by peer")
@@ -216,8 +221,10 @@ type Link struct {
 	hdr       []byte
 	Fired     map[string]int
 
-	wakeTx chan struct{}
-	wakeRx chan struct{}
+	wakeTx   chan struct{}
+	wakeRx   chan struct{}
+	wakeW    chan struct{}
+	consumed int64 // bytes the reader took out of the receive buffer
 }
 
 func (w *World) newLink(name string, cfg LinkCfg) *Link {
@@ -226,7 +233,7 @@ func (w *World) newLink(name string, cfg LinkCfg) *Link {
 	w.nextR++
 	w.mu.Unlock()
 	l := &Link{w: w, name: name, residue: int64(r % 900), rng: core.NewRand(w.Seed, "link", name), cfg: cfg,
-		wakeTx: make(chan struct{}, 1), wakeRx: make(chan struct{}, 1), Fired: map[string]int{}}
+		wakeTx: make(chan struct{}, 1), wakeRx: make(chan struct{}, 1), wakeW: make(chan struct{}, 1), Fired: map[string]int{}}
 	w.mu.Lock()
 	w.links = append(w.links, l)
 	w.mu.Unlock()
@@ -255,6 +262,7 @@ func (l *Link) kill() {
 	l.mu.Unlock()
 	signal(l.wakeTx)
 	signal(l.wakeRx)
+	signal(l.wakeW)
 }
 
 // nextSeg decides how many of the pending bytes travel together.
@@ -432,6 +440,7 @@ type Conn struct {
 	mu        sync.Mutex
 	rdl, wdl  time.Time
 	dlCh      chan struct{}
+	wdlCh     chan struct{}
 	closed    bool
 	Closes    int
 	Deadlines []DeadlineCall
@@ -453,8 +462,8 @@ type DeadlineCall struct {
 func (w *World) Pipe(nameA, nameB string, ab, ba LinkCfg) (*Conn, *Conn) {
 	lab := w.newLink(nameA+">"+nameB, ab)
 	lba := w.newLink(nameB+">"+nameA, ba)
-	a := &Conn{w: w, name: nameA + "@" + nameB, in: lba, out: lab, rrng: core.NewRand(w.Seed, "read", nameA, nameB), dlCh: make(chan struct{}, 1)}
-	b := &Conn{w: w, name: nameB + "@" + nameA, in: lab, out: lba, rrng: core.NewRand(w.Seed, "read", nameB, nameA), dlCh: make(chan struct{}, 1)}
+	a := &Conn{w: w, name: nameA + "@" + nameB, in: lba, out: lab, rrng: core.NewRand(w.Seed, "read", nameA, nameB), dlCh: make(chan struct{}, 1), wdlCh: make(chan struct{}, 1)}
+	b := &Conn{w: w, name: nameB + "@" + nameA, in: lab, out: lba, rrng: core.NewRand(w.Seed, "read", nameB, nameA), dlCh: make(chan struct{}, 1), wdlCh: make(chan struct{}, 1)}
 	w.mu.Lock()
 	w.conns = append(w.conns, a, b)
 	w.mu.Unlock()
@@ -513,7 +522,9 @@ func (c *Conn) Read(p []byte) (int, error) {
 			}
 			copy(p, l.rx[:n])
 			l.rx = l.rx[n:]
+			l.consumed += int64(n)
 			l.mu.Unlock()
+			signal(l.wakeW)
 			c.w.Ev(c.name, "read", n, "")
 			return n, nil
 		}
@@ -564,6 +575,40 @@ func (c *Conn) Write(p []byte) (int, error) {
 	}
 	l := c.out
 	l.mu.Lock()
+	for l.cfg.Window != 0 && len(p) > 0 && !l.txClosed && !l.killed {
+		win := int64(max(0, l.cfg.Window))
+		if l.accepted-l.consumed+int64(len(p)) <= win {
+			break
+		}
+		// blocked by flow control
+		l.Fired["write_blocked"]++
+		l.mu.Unlock()
+		c.mu.Lock()
+		closed, wdl := c.closed, c.wdl
+		c.mu.Unlock()
+		if closed {
+			return 0, net.ErrClosed
+		}
+		if !wdl.IsZero() && !time.Now().Before(wdl) {
+			c.w.Ev(c.name, "write-deadline", 0, "")
+			return 0, os.ErrDeadlineExceeded
+		}
+		var tc <-chan time.Time
+		var tm *time.Timer
+		if !wdl.IsZero() {
+			tm = time.NewTimer(time.Until(wdl))
+			tc = tm.C
+		}
+		select {
+		case <-l.wakeW:
+		case <-c.wdlCh:
+		case <-tc:
+		}
+		if tm != nil {
+			tm.Stop()
+		}
+		l.mu.Lock()
+	}
 	if l.txClosed || l.killed {
 		l.mu.Unlock()
 		return 0, io.ErrClosedPipe
@@ -601,7 +646,9 @@ func (c *Conn) Close() error {
 	c.out.txClosed = true
 	c.out.mu.Unlock()
 	signal(c.out.wakeTx)
+	signal(c.out.wakeW)
 	signal(c.dlCh)
+	signal(c.wdlCh)
 	signal(c.in.wakeRx)
 	return nil
 }
@@ -645,6 +692,7 @@ func (c *Conn) setDL(kind string, t time.Time) {
 	}
 	c.mu.Unlock()
 	signal(c.dlCh)
+	signal(c.wdlCh)
 }
 
 func (c *Conn) SetDeadline(t time.Time) error      { c.setDL("SetDeadline", t); return nil }
